@@ -52,7 +52,7 @@ python3 - <<PY
 import json
 meta=dict(property="$PROP", name="$NAME", suite_passes_with_change=$( $SUITE_OK && echo True || echo False ),
   demo_with_change="$DEMO_WITH", demo_without_change="$DEMO_WITHOUT",
-  demo_files="$DEMOS".split(), demo_run="go test -vet=off -count=1 -run '^($RUNPAT)\$' $(echo $PKGS)",
+  demo_files="""$DEMOS""".split(), demo_run="go test -vet=off -count=1 -run '^($RUNPAT)\$' $(echo $PKGS)",
   checks=json.loads("[" + """$RESULTS""".rstrip(",") + "]"),
   ran="tools/confirm_mutant.sh $PROP $NAME <agent worktree> $CHECKS (scratch copy of /repo HEAD $(git -C /repo log -1 --format=%h) with patch.diff applied; checks run with VERIF_REPO, budget ${MUT_BUDGET:-40}s per worker)")
 json.dump(meta, open("$OUT/meta.json","w"), indent=1)
